@@ -302,7 +302,7 @@ static TripleCheck run_triple_variant(World &W, double cut, int tv, BeadList &l1
 }
 
 // ------------------------------------------------------------------ configurations
-struct Config { Box box; double cut; };
+struct Config { Box box; double cut; bool cellfamily = false; };  // cellfamily: the 27 boxes that only vary the cells per direction
 static std::vector<Config> configs_pair(bool thorough) {
   std::vector<Config> c;
   auto ortho = [](double x, double y, double z) { Box b; b.ax = x; b.by = y; b.cz = z; return b; };
@@ -311,7 +311,7 @@ static std::vector<Config> configs_pair(bool thorough) {
   // every combination of 2,3,4 cells per direction
   for (double x : {2.5, 3.5, 4.5}) for (double y : {2.5, 3.5, 4.5}) for (double z : {2.5, 3.5, 4.5}) {
     if (!thorough && !((x == 2.5 && y == 3.5 && z == 4.5) || (x == 4.5 && y == 2.5 && z == 3.5) || (x == 3.5 && y == 4.5 && z == 2.5) || (x == 2.5 && y == 2.5 && z == 4.5))) continue;
-    c.push_back({ortho(x, y, z), 1.0});
+    c.push_back({ortho(x, y, z), 1.0, true});
   }
   c.push_back({ortho(2.5, 3.5, 4.5), 1.2});
   c.push_back({ortho(2.5, 3.5, 4.5), 0.6});
@@ -339,8 +339,22 @@ static std::vector<Config> configs_triple(bool thorough) {
 }
 // fractional lattices (per axis)
 static std::vector<double> lat_pair(bool thorough) {
-  if (thorough) return {-1.0, -1.0 / 3, 0.0, 0.25, 1.0 / 3, 0.5, 10.0 / 12, 16.0 / 12};
+  if (thorough) return {-1.0, -1.0 / 3, 0.0, 0.25, 1.0 / 3, 0.5, 16.0 / 12};
   return {-1.0 / 3, 0.0, 0.25, 0.5, 16.0 / 12};
+}
+// "near" enumeration: first bead on this lattice (just below 0 and just below 1 included), second bead = first + a
+// Cartesian displacement (multiples of the cutoff, straddling it), given raw and wrapped into the primary cell
+static std::vector<double> lat_near(bool thorough) {
+  if (thorough) return {-1.0 / 3, -1.0 / 48, 0.0, 0.25, 0.5, 47.0 / 48, 16.0 / 12};
+  return {-1.0 / 3, -1.0 / 48, 0.0, 0.5, 47.0 / 48};
+}
+static std::vector<double> disp_near(bool thorough) {
+  if (thorough) return {-0.9, -0.5, 0.0, 0.5, 0.9};
+  return {-0.9, 0.0, 0.5};
+}
+static D3 wrap_primary(const Box &B, const D3 &r) {
+  double s2 = r[2] / B.cz, s1 = (r[1] - B.cy * s2) / B.by, s0 = (r[0] - B.bx * s1 - B.cx * s2) / B.ax;
+  return B.place({s0 - std::floor(s0), s1 - std::floor(s1), s2 - std::floor(s2)});
 }
 static std::vector<double> lat_triple(bool thorough) {
   if (thorough) return {-0.3, 0.0, 0.5, 1.2};
@@ -370,6 +384,7 @@ struct Pair2 {
     std::string nc = nclass(cf.box, cf.cut);
     for (int pv = 0; pv < NPV; pv++) {
       if (only >= 0 && pv != only) continue;
+      if (only < 0 && cf.cellfamily && (pv == NB1 || pv == NB2)) continue;  // the simple search does not depend on the cell grid
       PairCheck pc = run_pair_variant(W, cf.box, cf.cut, pv, (pv == NB1 || pv == GRID1) ? all : la, lb, false, expect);
       out.evals++;
       if (!pc.ok) {
@@ -439,6 +454,7 @@ struct Triple3 {
       int var = 6 + pv;
       if (only >= 0 && only != var) continue;
       bool one = pv == NB1 || pv == GRID1;
+      if (only < 0 && !one) continue;  // two-list pair search on 3 beads adds nothing over pair2 + dense
       PairCheck pc = run_pair_variant(W, cf.box, cf.cut, pv, one ? all : la, ly, false, pexp);
       out.evals++;
       bool grid = pv == GRID1 || pv == GRID2;
@@ -454,7 +470,7 @@ struct Triple3 {
 
 // ------------------------------------------------------------------ part dense: N = 0, 1 and 4x4x4 blocks
 struct DenseCfg { Config cf; int n; int origin; double spacing_frac; };
-static std::vector<D3> dense_origins() { return {{0, 0, 0}, {-0.4, 0.1, 0.7}, {0.9, -1.2, 0.3}, {0.49, 0.49, 0.49}}; }
+static std::vector<D3> dense_origins() { return {{0, 0, 0}, {-0.4, 0.1, -0.05}, {0.9, -1.2, 0.3}, {0.49, 0.49, -2.3}}; }
 static void dense_one(const DenseCfg &dc, int only, Batch &out) {
   const Config &cf = dc.cf;
   int n = dc.n;
@@ -469,7 +485,9 @@ static void dense_one(const DenseCfg &dc, int only, Batch &out) {
   for (int i = 0; i < n; i++) {
     int x = i % 4, y = (i / 4) % 4, z = i / 16;
     // a small deterministic skew so that no two distances coincide with the cutoff by construction
-    W.setpos(i, {org[0] + s * x + 0.013 * s * y, org[1] + s * y + 0.007 * s * z, org[2] + s * z + 0.011 * s * x});
+    D3 r = {org[0] + s * x + 0.013 * s * y, org[1] + s * y + 0.007 * s * z, org[2] + s * z + 0.011 * s * x};
+    // every third bead (the type-B ones) is given by its image in the primary cell, so neighbours are connected through different images
+    W.setpos(i, i % 3 == 1 ? wrap_primary(cf.box, r) : r);
   }
   BeadList all, la, lb, lc, ly;
   all.Generate(W.top, "*"); la.Generate(W.top, "A"); lb.Generate(W.top, "B"); lc.Generate(W.top, "C"); ly.Generate(W.top, "name:Y");
@@ -706,14 +724,25 @@ int main(int argc, char **argv) {
   bool thorough = a.tier == "thorough";
   // batches (shared by the enumeration and by --case batch;...)
   std::vector<Config> pc = configs_pair(thorough), tc = configs_triple(thorough);
-  std::vector<D3> lp = cube(lat_pair(thorough)), lt = cube(lat_triple(thorough));
+  std::vector<D3> lp = cube(lat_pair(thorough)), ln = cube(lat_near(thorough)), ld = cube(disp_near(thorough)), lt = cube(lat_triple(thorough));
+  struct PB { int first, second, kind; };  // (config, index of the first bead's lattice point, 0 = full product / 1 = near enumeration)
+  std::vector<PB> pbatch;
+  auto build_pbatch = [&]() {
+    pbatch.clear();
+    for (size_t c = 0; c < pc.size(); c++) {
+      for (size_t i = 0; i < lp.size(); i++) pbatch.push_back({(int)c, (int)i, 0});
+      for (size_t i = 0; i < ln.size(); i++) pbatch.push_back({(int)c, (int)i, 1});
+    }
+  };
+  build_pbatch();
   std::vector<DenseCfg> dcs;
   {
     std::vector<Config> base = configs_pair(true);
     for (auto &cf : base) {
       for (int org = 0; org < 4; org++)
         for (double sp : {0.45, 0.8}) {
-          if (!thorough && (org == 3 || sp == 0.8) && !(org == 1 && sp == 0.8)) continue;
+          if ((org % 2 == 0) != (sp == 0.45)) continue;   // origins 0,2 dense spacing; 1,3 wide spacing
+          if (!thorough && org >= 2) continue;
           dcs.push_back({cf, 64, org, sp});
         }
       dcs.push_back({cf, 0, 0, 0.5});
@@ -723,34 +752,83 @@ int main(int argc, char **argv) {
     }
   }
   std::vector<ExclTopo> topos = excl_topos(thorough);
-  long long nbatch = part == "pair2" ? (long long)pc.size() * lp.size() : part == "triple3" ? (long long)tc.size() * lt.size()
+  long long nbatch = part == "pair2" ? (long long)pbatch.size() : part == "triple3" ? (long long)tc.size() * lt.size() + (long long)tc.size() * ln.size()
                      : part == "dense" ? (long long)dcs.size() : (long long)topos.size();
   auto run_batch = [&](long long b) {
     Batch out;
     if (part == "pair2") {
-      const Config &cf = pc[b / lp.size()];
+      const Config &cf = pc[pbatch[b].first];
+      const std::vector<D3> &L = lp;
       Pair2 P; P.W.top.setBox(cf.box.mat());
-      D3 r0 = cf.box.place(lp[b % lp.size()]);
-      for (auto &f1 : lp) P.one(cf, r0, cf.box.place(f1), -1, out);
-      if ((b % lp.size()) == 3) {
-        D3 r1 = cf.box.place(lp[lp.size() / 2 + 1]);
-        MinImg mi = minimg(cf.box, r0, r1);
-        auto n = ref_cells(cf.box, cf.cut);
-        out.samples.push_back(cf.box.pretty() + " cutoff=" + bsx::fmt(cf.cut) + " cells " + std::to_string(n[0]) + "x" + std::to_string(n[1]) + "x" + std::to_string(n[2]) + " r0=" + pp(r0) + " r1=" + pp(r1) +
-                              " min-image d=" + bsx::fmt((double)mi.d) + (mi.d < cf.cut ? " -> pair reported once by all 4 variants" : " -> no pair from any variant"));
+      if (pbatch[b].kind == 1) {
+        D3 r0 = cf.box.place(ln[pbatch[b].second]);
+        for (auto &d : ld) {
+          D3 r1 = {r0[0] + d[0] * cf.cut, r0[1] + d[1] * cf.cut, r0[2] + d[2] * cf.cut};
+          P.one(cf, r0, r1, -1, out);
+          P.one(cf, r0, wrap_primary(cf.box, r1), -1, out);
+          out.counters["p2_near_cases"] += 2;
+        }
+        return out;
       }
+      D3 r0 = cf.box.place(L[pbatch[b].second]);
+      for (auto &f1 : L) P.one(cf, r0, cf.box.place(f1), -1, out);
+      if (b % 64 == 0 || pbatch[b].second == 3) {
+        auto n = ref_cells(cf.box, cf.cut);
+        bool in = false, outp = false;
+        for (auto &f1 : L) {
+          D3 r1 = cf.box.place(f1);
+          MinImg mi = minimg(cf.box, r0, r1);
+          if (mi.d == 0 || fabsl(mi.d - cf.cut) <= NEAR) continue;
+          bool within = mi.d < cf.cut;
+          if ((within && in) || (!within && outp)) continue;
+          (within ? in : outp) = true;
+          out.samples.push_back(cf.box.pretty() + " cutoff=" + bsx::fmt(cf.cut) + " cells " + std::to_string(n[0]) + "x" + std::to_string(n[1]) + "x" + std::to_string(n[2]) + " r0=" + pp(r0) + " r1=" + pp(r1) +
+                                " min-image d=" + bsx::fmt((double)mi.d) + " image (" + std::to_string(mi.k[0]) + "," + std::to_string(mi.k[1]) + "," + std::to_string(mi.k[2]) + ")" +
+                                (within ? " -> pair delivered and stored once by every variant, r and dist as expected" : " -> no pair from any variant"));
+        }
+      }
+    } else if (part == "triple3" && b >= (long long)(tc.size() * lt.size())) {
+      // near enumeration: centre on the 'near' lattice, the two partners = centre + displacement (7 displacements of 0.6/0.87 cutoff),
+      // all three raw, or the partners wrapped into the primary cell
+      long long q = b - (long long)(tc.size() * lt.size());
+      const Config &cf = tc[q / ln.size()];
+      Triple3 T; T.W.top.setBox(cf.box.mat());
+      D3 r0 = cf.box.place(ln[q % ln.size()]);
+      const double D7[7][3] = {{0.6, 0, 0}, {-0.6, 0, 0}, {0, 0.6, 0}, {0, -0.6, 0}, {0, 0, 0.6}, {0, 0, -0.6}, {0.5, 0.5, 0.5}};
+      for (int i = 0; i < 7; i++)
+        for (int j = 0; j < 7; j++) {
+          D3 r1 = {r0[0] + D7[i][0] * cf.cut, r0[1] + D7[i][1] * cf.cut, r0[2] + D7[i][2] * cf.cut};
+          D3 r2 = {r0[0] + D7[j][0] * cf.cut, r0[1] + D7[j][1] * cf.cut, r0[2] + D7[j][2] * cf.cut};
+          T.one(cf, r0, r1, r2, -1, out);
+          T.one(cf, r0, wrap_primary(cf.box, r1), wrap_primary(cf.box, r2), -1, out);
+          out.counters["p3_near_cases"] += 2;
+        }
     } else if (part == "triple3") {
       const Config &cf = tc[b / lt.size()];
       Triple3 T; T.W.top.setBox(cf.box.mat());
       D3 r0 = cf.box.place(lt[b % lt.size()]);
       for (auto &f1 : lt) { D3 r1 = cf.box.place(f1); for (auto &f2 : lt) T.one(cf, r0, r1, cf.box.place(f2), -1, out); }
+      if (b % (long long)lt.size() == 0) {
+        bool done = false;
+        for (auto &f1 : lt) for (auto &f2 : lt) {
+          if (done) break;
+          D3 r1 = cf.box.place(f1), r2 = cf.box.place(f2);
+          MinImg a1 = minimg(cf.box, r0, r1), a2 = minimg(cf.box, r0, r2), a3 = minimg(cf.box, r1, r2);
+          if (a1.d > 0 && a2.d > 0 && a3.d > cf.cut && a1.d < cf.cut - 1e-6 && a2.d < cf.cut - 1e-6) {
+            done = true;
+            out.samples.push_back(cf.box.pretty() + " cutoff=" + bsx::fmt(cf.cut) + " r0=" + pp(r0) + " r1=" + pp(r1) + " r2=" + pp(r2) + " d01=" + bsx::fmt((double)a1.d) + " d02=" + bsx::fmt((double)a2.d) + " d12=" +
+                                  bsx::fmt((double)a3.d) + " -> exactly the triple (centre 0,{1,2}) from all six 3-body variants, stored once");
+          }
+        }
+      }
     } else if (part == "dense") {
       dense_one(dcs[b], -1, out);
-      if (dcs[b].n == 64 && dcs[b].origin == 1)
+      if (dcs[b].n == 64)
         out.samples.push_back(dcs[b].cf.box.pretty() + " cutoff=" + bsx::fmt(dcs[b].cf.cut) + " 64-bead block: pairs reported (4 variants) " + std::to_string(out.counters["dense_pairs_reported"]) +
                               ", triples (6 variants) " + std::to_string(out.counters["dense_triples_reported"]));
     } else {
       for (int arr = 0; arr < 3; arr++) excl_one(topos[b], arr, -1, out);
+      if (b % 97 == 5 && out.fails.empty()) out.samples.push_back("topology " + topo_str(topos[b]) + ": IsExcluded and all four pair searchers (exclusions on/off, 3 arrangements) agree with 'same molecule and shared interaction'");
     }
     return out;
   };
@@ -761,7 +839,8 @@ int main(int argc, char **argv) {
       nbatch = 1;  // recompute below with the right part
       // tier of the batch is part of the case
       thorough = m["tier"] == "thorough";
-      pc = configs_pair(thorough); tc = configs_triple(thorough); lp = cube(lat_pair(thorough)); lt = cube(lat_triple(thorough)); topos = excl_topos(thorough);
+      pc = configs_pair(thorough); tc = configs_triple(thorough); lp = cube(lat_pair(thorough)); ln = cube(lat_near(thorough)); ld = cube(disp_near(thorough)); lt = cube(lat_triple(thorough)); topos = excl_topos(thorough);
+      build_pbatch();
       Batch out = run_batch(atoll(m["idx"].c_str()));  // dies here if the code under test crashes
       if (out.fails.empty()) { printf("case holds\n"); return 0; }
       printf("case FAILS: key=%s %s\n", out.fails[0].key.c_str(), out.fails[0].what.c_str());
@@ -774,17 +853,17 @@ int main(int argc, char **argv) {
   R.property = "C03"; R.part = part; R.tier = a.tier;
   R.max_samples = 6;
   if (part == "pair2")
-    R.rule = "all placements of 2 beads on a " + std::to_string(lat_pair(thorough).size()) + "-per-axis fractional lattice (" + std::string(thorough ? "-1,-1/3,0,1/4,1/3,1/2,5/6,4/3" : "-1/3,0,1/4,1/2,4/3") +
+    R.rule = "all placements of 2 beads on a " + std::to_string(lat_pair(thorough).size()) + "-per-axis fractional lattice (" + std::string(thorough ? "-1,-1/3,0,1/4,1/3,1/2,4/3" : "-1/3,0,1/4,1/2,4/3") +
              " of the box vectors: negative, on faces, on cell boundaries, outside the cell) x " + std::to_string(pc.size()) + " (box,cutoff) configurations (cubic L=3 with 2,3(exactly one cutoff thick),3,4,7 cells; "
              "orthorhombic edges {2.5,3.5,4.5}^3 at cutoff 1 = every combination of 2,3,4 cells per direction; 3 reduced triclinic boxes incl. extreme tilts at 0.49,0.33,0.24 of the shortest height) x "
-             "{NBList, NBListGrid} x {one list, two lists}. Oracle: brute-force minimum image (fractional reduction + 5^3 images, long double); exact set of reported pairs, callback count per pair = 1, stored once, "
+             "{NBList, NBListGrid} x {one list, two lists} (the 27-box cell-count family: grid searchers only); plus the 'near' enumeration: first bead on {-1/3,-1/48,0," + std::string(thorough ? "1/4," : "") + "1/2,47/48" + std::string(thorough ? ",4/3" : "") + "}^3, second bead = first + Cartesian displacement from (cutoff x " + std::string(thorough ? "{-0.9,-0.5,0,0.5,0.9}" : "{-0.9,0,0.5}") + ")^3, given raw and wrapped into the primary cell. Oracle: brute-force minimum image (fractional reduction + 5^3 images, long double); exact set of reported pairs, callback count per pair = 1, stored once, "
              "stored/callback r = min image of pos(second)-pos(first) and dist within 1e-9; |d-cutoff|<=1e-12 may go either way. distinct_nontrivial = distinct (variant, cells per direction, box class, pair + selected image vector)";
   else if (part == "triple3")
     R.rule = "all placements of 3 beads on a " + std::to_string(lat_triple(thorough).size()) + "-per-axis fractional lattice (-0.3,0,0.5" + std::string(thorough ? ",1.2" : "") + ") x " + std::to_string(tc.size()) +
-             " (box,cutoff) configurations x {NBList_3Body, NBListGrid_3Body} x {one type, two types ({0};{1,2}), three types} plus the 4 pair variants on the same 3 beads. Oracle: a triple (centre,{j,k}) is reported exactly once iff both "
+             " (box,cutoff) configurations x {NBList_3Body, NBListGrid_3Body} x {one type, two types ({0};{1,2}), three types} plus the one-list NBList/NBListGrid pair search on the same 3 beads; plus the 'near' enumeration: centre on the lattice {-1/3,-1/48,0," + std::string(thorough ? "1/4," : "") + "1/2,47/48" + std::string(thorough ? ",4/3" : "") + "}^3, both partners = centre + one of 7 displacements (0.6 cutoff along +-x,+-y,+-z; 0.5 cutoff x (1,1,1)), raw and wrapped into the primary cell. Oracle: a triple (centre,{j,k}) is reported exactly once iff both "
              "centre distances (brute-force minimum image) are below the cutoff; distances within 1e-12 of the cutoff either way. distinct_nontrivial = distinct (variant, cells, box class, set of reported triples/pairs)";
   else if (part == "dense")
-    R.rule = "for each of the " + std::to_string(configs_pair(true).size()) + " (box,cutoff) configurations: bead counts 0,1,2,5 and 4x4x4 blocks of 64 beads (spacing 0.45/0.8 cutoff, slightly skewed, 4 block origins incl. negative coordinates and across faces), "
+    R.rule = "for each of the " + std::to_string(configs_pair(true).size()) + " (box,cutoff) configurations: bead counts 0,1,2,5 and 4x4x4 blocks of 64 beads (spacing 0.45 or 0.8 cutoff, slightly skewed, " + std::string(thorough ? "4" : "2") + " block origins with negative coordinates in every direction and across faces, every third bead given by its image in the primary cell), "
              "types A,B,C by index: 4 pair variants and 6 three-body variants compared as complete sets with the O(N^2)/O(N^3) brute force (multiplicity: every pair delivered once, every triple stored once)";
   else
     R.rule = "all topologies of 2..4 beads, every assignment of beads to 2 molecules, every set of <= " + std::string(thorough ? "3" : "2") + " bonded interactions over the alphabet {all bonds in both id orders, all angles, one dihedral}; "
@@ -806,8 +885,8 @@ int main(int argc, char **argv) {
         if (!o.ok) {
           long long b = minei[i];
           std::string desc;
-          if (part == "pair2") desc = nclass(pc[b / lp.size()].box, pc[b / lp.size()].cut);
-          else if (part == "triple3") desc = nclass(tc[b / lt.size()].box, tc[b / lt.size()].cut);
+          if (part == "pair2") desc = nclass(pc[pbatch[b].first].box, pc[pbatch[b].first].cut);
+          else if (part == "triple3") { size_t ci = b < (long long)(tc.size() * lt.size()) ? b / lt.size() : (b - tc.size() * lt.size()) / ln.size(); desc = nclass(tc[ci].box, tc[ci].cut); }
           else if (part == "dense") desc = nclass(dcs[b].cf.box, dcs[b].cf.cut);
           else desc = "topology";
           R.eval();
